@@ -66,6 +66,7 @@ func fullLog(c *hx.Ctx, r *hx.Rng, logLen int, kinds map[string]bool) {
 	u := metax.NewUniverse(r.Fork())
 	ra, rb := r.Fork(), r.Fork()
 	a, b := metax.NewInst(), metax.NewInst()
+	u.State = a.Data
 	var pro []metax.Cmd
 	if r.Chance(85) {
 		pro = metax.Bootstrap(u)
@@ -128,7 +129,9 @@ func fullLog(c *hx.Ctx, r *hx.Rng, logLen int, kinds map[string]bool) {
 				pending = append(pending, cx)
 			}
 			for _, cx := range pending {
-				b.ShuffleMaps(rb)
+				// no map shuffling while the snapshot object is outstanding: re-inserting the
+				// entries into fresh maps would undo any aliasing between the snapshot and the live
+				// catalogue (a shallow clone), which is exactly what a deferred persist exposes
 				if res := b.Apply(cx); res.Panic {
 					break
 				}
@@ -280,6 +283,7 @@ func modelLog(c *hx.Ctx, r *hx.Rng, logLen int) {
 	u := metax.NewUniverse(r.Fork())
 	u.Modelled = true
 	in := metax.NewInst()
+	u.State = in.Data
 	c.Emit("reset", "ok")
 	var pro []metax.Cmd
 	if r.Chance(90) {
@@ -426,7 +430,7 @@ func scriptedLog(c *hx.Ctx, r *hx.Rng, sc metax.Script, pro []metax.Cmd, cut, de
 			// the command is built from A's catalogue before A applied it; B is in the same state
 			cx := next(i + j)
 			pending = append(pending, cx)
-			b.ShuffleMaps(rb)
+			// (no map shuffling while the snapshot object is outstanding, see fullLog)
 			if res := b.Apply(cx); res.Panic {
 				break
 			}
